@@ -564,17 +564,19 @@ C08Redecode(ctx) ==
 \* C09  refresh: the object follows the new source; idempotent
 
 \* does Terraform value a render Go value s (of field F / its elements)?  null is allowed for zero / nil.
-RECURSIVE Follows(_, _, _)
+RECURSIVE Follows(_, _, _, _)
 PrimFollows(F, a, s) ==
   /\ a.k = "prim"
   /\ IF F.nullable THEN (a.null <=> s.t = "nil") /\ (s.t = "ptr" => a.v = s.p.s)
      ELSE (a.null => s.s \in ZeroSet(F.cls)) /\ (~a.null => a.v = s.s \/ (a.v \in ZeroSet(F.cls) /\ s.s \in ZeroSet(F.cls)))
 ElemFollows(F, e, x) ==
   IF F.kind \in {"primlist", "primmap"} THEN PrimFollows(F, e, x)
-  ELSE e.k = "obj" /\ (IF x.t = "nil" THEN e.null ELSE ~e.null /\ Follows(SubOf(F), e, Deref(x)) = {})
+  \* list and map elements are built anew by every call: inside them every scalar renders its source (strict)
+  ELSE e.k = "obj" /\ (IF x.t = "nil" THEN e.null ELSE ~e.null /\ Follows(SubOf(F), e, Deref(x), TRUE) = {})
 
-\* failing sites; tv = object after the call, obj = source struct
-Follows(M, tv, obj) ==
+\* failing sites; tv = object after the call, obj = source struct; strict: by-value scalars are judged here too
+\* (otherwise against the earlier state, by ScalarFollow: the property speaks about attributes that were non-null)
+Follows(M, tv, obj, strict) ==
   IF ~(tv.k = "obj") \/ obj.t # "st" THEN {}
   ELSE UNION {
     LET F == M.fields[i]
@@ -583,7 +585,7 @@ Follows(M, tv, obj) ==
     IN IF ~HasFlags(a) \/ F.kind = "custom" \/ F.placeholder THEN {}
        ELSE IF F.kind = "prim" /\ F.nullable THEN (IF a.null <=> s.t = "nil" THEN {} ELSE {V("C09.ptr.null_iff_nil", F, "")})
                                                  \cup (IF s.t = "ptr" /\ ~a.null /\ a.v # s.p.s THEN {V("C09.scalar.follow", F, "")} ELSE {})
-       ELSE IF F.kind = "prim" THEN {}   \* judged against the earlier state by ScalarFollow
+       ELSE IF F.kind = "prim" THEN (IF strict /\ ~PrimFollows(F, a, s) THEN {V("C09.scalar.follow", F, "strict")} ELSE {})
        ELSE IF F.kind \in {"primlist", "objlist"} THEN
             LET n == IF s.t = "seq" THEN Len(s.e) ELSE 0
             IN IF Len(a.elems) # n THEN {V("C09.list.len", F, IF s.t = "nil" THEN "src=nil" ELSE "")}
@@ -594,7 +596,7 @@ Follows(M, tv, obj) ==
                ELSE IF \E key \in keys : ~ElemFollows(F, a.mels[key], s.m[key]) THEN {V("C09.map.vals", F, "")} ELSE {}
        ELSE \* obj
             IF s.t = "nil" THEN (IF a.null THEN {} ELSE {V("C09.msg.nil_null", F, "")})
-            ELSE Follows(SubOf(F), a, Deref(s))
+            ELSE Follows(SubOf(F), a, Deref(s), strict)
     : i \in DOMAIN M.fields }
 
 \* every scalar attribute that was non-null before the call takes the source's value
@@ -620,10 +622,21 @@ C09(ctx) ==
   \cup (IF ~ctx.pn /\ HasError(ctx.dg) THEN {VG("C09.noerror", ctx.M.path)} ELSE {})
   \cup (IF ctx.pn THEN {} ELSE
           (IF NoUnknown(ctx.after) THEN {} ELSE {VG("C09.nounknown", ctx.M.path)})
-          \cup Follows(ctx.M, ctx.after, ctx.obj)
+          \cup Follows(ctx.M, ctx.after, ctx.obj, FALSE)
           \cup ScalarFollow(ctx.M, ctx.before, ctx.after, ctx.obj))
 
 C09Idem(ctx) == IF ctx.pn \/ ctx.after = ctx.before THEN {} ELSE {VG("C09.idempotent", ctx.M.path)}
+
+---------------------------------------------------------------------------
+\* C02 (converter half)  schema, CopyTo and CopyFrom agree on the field <-> attribute mapping: "writing a distinctive
+\* value into one field changes exactly that attribute, and reading it back changes exactly that field".  Stated
+\* per field instead of per pair of runs: after CopyTo into an empty object EVERY attribute renders the value of its
+\* own field (so two values that differ in one field differ in exactly that attribute), and after CopyFrom into a
+\* fresh struct EVERY field holds what its own attribute denotes (Dec).
+C02To(M, obj, tf) == {[x EXCEPT !.sig = x.c \o " " \o @, !.c = "C02.to.exactly"] : x \in Follows(M, tf, obj, TRUE)}
+C02From(M, tf, back) ==
+  IF ~WellFormedObj(M, tf) THEN {}
+  ELSE RtDiff("C02.from.exactly", M, back, NF(M, MaskCustomGo(M, 1, Dec(M, tf))), NF(M, MaskCustomGo(M, 1, back)))
 
 ---------------------------------------------------------------------------
 \* C17  custom-type fields are delegated to the user's three hooks (top-level fields of the root message;
